@@ -70,10 +70,14 @@ def verif_src_hash():
 def build_dir():
     d = os.path.join(BUILD_ROOT, repo_hash())
     os.makedirs(d, exist_ok=True)
+    try:
+        os.utime(d, None)
+    except OSError:
+        pass
     return d
 
 
-def prune_builds(keep=3):
+def prune_builds(keep=6):
     """Remove build directories of older /repo trees (least recently used first)."""
     if not os.path.isdir(BUILD_ROOT):
         return
@@ -84,8 +88,10 @@ def prune_builds(keep=3):
         if os.path.isdir(p) and d != cur and d != "tmp" and len(d) == 16:
             ds.append((os.path.getmtime(p), p))
     ds.sort(reverse=True)
-    for _, p in ds[keep - 1:]:
-        shutil.rmtree(p, ignore_errors=True)
+    now = time.time()
+    for mt, p in ds[keep - 1:]:
+        if now - mt > 2 * 3600:     # never a directory that another check may still be using
+            shutil.rmtree(p, ignore_errors=True)
 
 
 # ------------------------------------------------------------------------------------------ builds
